@@ -60,6 +60,9 @@ func runOne(ctx context.Context, s solverSpec, file string, timeoutS int) solveR
 		args = []string{"z3", "-T:" + fmtInt(timeoutS), "smt.mbqi=false", file}
 	case "z3-new-ematch":
 		args = []string{"z3-new", "-T:" + fmtInt(timeoutS), "smt.mbqi=false", file}
+	case "z3-new-nogrob":
+		// nonlinear goals: the Groebner-basis step of z3's nla solver makes run time vary 10x with the seed
+		args = []string{"z3-new", "-T:" + fmtInt(timeoutS), "smt.arith.nl.grobner=false", file}
 	case "cvc5":
 		args = []string{"cvc5", "--tlimit=" + fmtInt(timeoutS*1000), file}
 	}
@@ -110,12 +113,12 @@ func SolveLite(workDir, name, script, lite string, timeoutS int, only []string) 
 	os.WriteFile(file, []byte(script), 0o644)
 	ctx, cancel := context.WithCancel(context.Background())
 	defer cancel()
-	ch := make(chan solveResult, len(solvers)+2)
+	ch := make(chan solveResult, len(solvers)+3)
 	n := 0
 	if lite != "" && len(only) == 0 {
 		lfile := filepath.Join(workDir, hex.EncodeToString(h[:8])+".lite.smt2")
 		os.WriteFile(lfile, []byte(lite), 0o644)
-		for _, s := range []solverSpec{{name: "z3-new"}, {name: "cvc5"}} {
+		for _, s := range []solverSpec{{name: "z3-new"}, {name: "cvc5"}, {name: "z3-new-nogrob"}} {
 			n++
 			go func(s solverSpec) {
 				r := runOne(ctx, s, lfile, timeoutS)
